@@ -463,7 +463,7 @@ class StmtMixin:
         if isinstance(v, (str, SStr)):
             return SStr(self.fresh_term(base, STR, False))
         if isinstance(v, SRef):
-            return SRef(self.fresh_term(base, REF, False), v.cls)
+            return SRef(self.fresh_term(base, v.t.sort, False), v.cls)
         if isinstance(v, SSetV):
             return SSetV(self.fresh_term(base, v.t.sort, False), v.ety)
         if isinstance(v, SSeqV):
